@@ -16,6 +16,7 @@ inductive Mv
   | lockT (t i : Nat)
   | unlock (t i : Nat)
   | release (t i : Nat)
+  | releaseT (t i : Nat)
   | tick (t : Nat)
   | scan (t : Nat)
   | move (i t1 t2 : Nat)
@@ -29,7 +30,8 @@ def applyMv (c : Cfg) (o : Orders) (s : State) : Mv → Option State
   | .lock t i => if s.pc t = .idle ∧ c.tls = false ∧ s.own i = .held t then some (callLock s t i) else none
   | .lockT t i => if s.pc t = .idle ∧ c.tls = true ∧ s.tslot t = some i then some (callLockT s t i) else none
   | .unlock t i => if s.pc t = .idle ∧ s.own i = .held t ∧ 1 ≤ s.lt i then some (callUnlock s t i) else none
-  | .release t i => if s.pc t = .idle ∧ s.own i = .held t ∧ s.lt i = 0 then some (callRelease s t i) else none
+  | .release t i => if s.pc t = .idle ∧ c.tls = false ∧ s.own i = .held t then some (callRelease s t i) else none
+  | .releaseT t i => if s.pc t = .idle ∧ c.tls = true ∧ s.own i = .held t ∧ s.lt i = 0 then some (callReleaseT s t i) else none
   | .tick t => if s.pc t = .idle then some (callTick s t) else none
   | .scan t => if s.pc t = .idle then some (callScan s t) else none
   | .move i t1 t2 =>
@@ -71,6 +73,11 @@ theorem applyMv_step {c : Cfg} {o : Orders} {s s' : State} {mv : Mv} (h : applyM
     simp only [applyMv] at h
     split at h
     · rename_i g; cases h; exact Step.release s t i g.1 g.2.1 g.2.2
+    · cases h
+  | releaseT t i =>
+    simp only [applyMv] at h
+    split at h
+    · rename_i g; cases h; exact Step.releaseT s t i g.1 g.2.1 g.2.2.1 g.2.2.2
     · cases h
   | tick t =>
     simp only [applyMv] at h
